@@ -445,7 +445,9 @@ func fcRunTrace(self string, spec fcTraceSpec) (string, []fcEv, string, error) {
 // ---- the engine app ------------------------------------------------------------------------
 
 var fcNodes = [][3]string{
-	{"root", "LOAD echo 0\nMAP echo\nMOUT first 1\nMOUT second 2\nMOUT third 3\nHALT\nINCMP aa 1\nINCMP bb 2\nINCMP dd 3\n", "root {{.echo}}"},
+	{"root", "LOAD echo 0\nMAP echo\nMOUT first 1\nMOUT second 2\nMOUT third 3\nHALT\nINCMP aa 1\nINCMP bb 2\nINCMP dd 3\nINCMP ee 4\n", "root {{.echo}}"},
+	// ee loads eighteen symbols: a record whose cache maps have more entries than any "reasonable" decoder limit
+	{"ee", fcManyLoads(18) + "MOUT back 0\nHALT\nINCMP _ 0\n", "ee"},
 	// dd re-runs itself on any input but 0 and reloads a one-digit value: consecutive records of equal length
 	{"dd", "LOAD digit 0\nRELOAD digit\nMAP digit\nMOUT back 0\nHALT\nINCMP _ 0\nINCMP . *\n", "dd {{.digit}}"},
 	{"aa", "LOAD stamp 0\nMAP stamp\nMOUT back 0\nMOUT deeper 1\nHALT\nINCMP _ 0\nINCMP cc 1\n", "aa {{.stamp}}"},
@@ -454,6 +456,14 @@ var fcNodes = [][3]string{
 	{"bb", "LOAD nl 0\nMAP nl\nMOUT back 0\nHALT\nINCMP _ 0\n", "bb {{.nl}}"},
 	{"cc", "LOAD long 0\nMOUT back 0\nHALT\nINCMP _ 0\n", "cc"},
 	{"_catch", "MOUT back 0\nHALT\nINCMP _ 0\n", "invalid input"},
+}
+
+func fcManyLoads(n int) string {
+	var sb strings.Builder
+	for i := 1; i <= n; i++ {
+		fmt.Fprintf(&sb, "LOAD many%02d 0\n", i)
+	}
+	return sb.String()
 }
 
 func fcResource() *resource.DbResource {
@@ -493,6 +503,12 @@ func fcResource() *resource.DbResource {
 	rs.AddLocalFunc("nl", func(ctx context.Context, sym string, input []byte) (resource.Result, error) {
 		return resource.Result{Content: "line:" + string(input) + "\n"}, nil
 	})
+	for i := 1; i <= 18; i++ {
+		name := fmt.Sprintf("many%02d", i)
+		rs.AddLocalFunc(name, func(ctx context.Context, sym string, input []byte) (resource.Result, error) {
+			return resource.Result{Content: sym[4:]}, nil
+		})
+	}
 	rs.AddLocalFunc("long", func(ctx context.Context, sym string, input []byte) (resource.Result, error) {
 		return resource.Result{Content: strings.Repeat("xy", 20), FlagSet: []uint32{9}}, nil
 	})
@@ -990,7 +1006,7 @@ func fcKillCase(self string, pr fcPair, syscall string) (string, bool, error) {
 
 // ---- generation ----------------------------------------------------------------------------
 
-var fcInputs = []string{"1", "2", "0", "1", "0", "9", "", "3"}
+var fcInputs = []string{"1", "2", "0", "1", "0", "9", "", "3", "4"}
 
 // fcHistory runs a session for the given inputs in a scratch store and returns the record bytes
 // after every request.
